@@ -1432,15 +1432,31 @@ Qed.
 
 Lemma Inv_init db : Inv (init_j db) (init_r db).
 Proof.
-  split; try done; [apply wf_init|].
-  split; try done; simpl.
-  - intros a. rewrite !lookup_fmap. destruct (db !! a) as [d|] eqn:E; simpl; [|done].
-    split_and!; try done; intros k; unfold get_state, committed, db_stor; simpl;
-      rewrite ?lookup_empty E; by case_bool_decide.
-  - intros a. rewrite lookup_empty. split; [by intros [? ?]|set_solver].
-  - intros a k. unfold al_contains_slot. simpl. rewrite lookup_empty. set_solver.
-  - intros th. by rewrite lookup_empty.
-  - intros a. rewrite dom_empty_L. set_solver.
+  split; [apply wf_init| |done|done|done|done].
+  change (r_sticky (init_r db)) with false.
+  split.
+  - intros a.
+    change (j_objs (init_j db)) with ((λ d, new_object (Some (d_acct d))) <$> db).
+    change (accts (r_cur (init_r db))) with
+      ((λ d, {| ra := d_acct d; r_stor := d_stor d; r_cstor := d_stor d; r_new := false; r_sd := false |}) <$> db).
+    rewrite !lookup_fmap. destruct (db !! a) as [d|] eqn:E; [|done].
+    change (obj_rel (init_j db) a (new_object (Some (d_acct d)))
+              {| ra := d_acct d; r_stor := d_stor d; r_cstor := d_stor d; r_new := false; r_sd := false |}).
+    assert (Hc : ∀ k, committed (init_j db) a (new_object (Some (d_acct d))) k = sget (d_stor d) k).
+    { intros k. unfold committed, db_stor, new_object. cbn [o_pending]. rewrite lookup_empty.
+      change (j_destruct (init_j db)) with (∅ : gset addr). change (j_db (init_j db)) with db.
+      rewrite E. by case_bool_decide. }
+    split_and!; try done. intros k. unfold get_state, new_object. cbn [o_dirty]. rewrite lookup_empty. apply Hc.
+  - done.
+  - done.
+  - intros a. change (j_ala (init_j db)) with (∅ : gmap addr Z). rewrite lookup_empty.
+    change (al_a (r_cur (init_r db))) with (∅ : gset addr). split; [by intros [? ?]|set_solver].
+  - intros a k. unfold al_contains_slot. change (j_ala (init_j db)) with (∅ : gmap addr Z). rewrite lookup_empty.
+    change (al_s (r_cur (init_r db))) with (∅ : gset (addr * slot)). set_solver.
+  - intros th. change (j_logs (init_j db)) with (∅ : gmap N (list log)). by rewrite lookup_empty.
+  - done.
+  - intros a. change (j_muts (init_j db)) with (∅ : gmap addr mstate). rewrite dom_empty_L.
+    change (touched (r_cur (init_r db))) with (∅ : gset addr). set_solver.
 Qed.
 
 (* guards along a history, evaluated on the implementation model *)
